@@ -2,7 +2,7 @@
     stay Coq's extracted datatypes). *)
 From Coq Require Import List ZArith.
 From Coq Require Extraction ExtrOcamlBasic.
-From Unodb Require Import Base.Lex Base.Bytes Encode.EncModel Art.ArtModel Art.ArtIter Art.ArtFault Lock.LockModel Olc.OlcTrace Olc.Protocol Qsbr.QsbrModel Lin.LinCheck Ptr.PtrShape Ptr.PtrModel Gen.GenPtrMethods.
+From Unodb Require Import Base.Lex Base.Bytes Encode.EncModel Art.ArtModel Art.ArtIter Art.ArtFault Lock.LockModel Olc.OlcTrace Olc.Protocol Qsbr.QsbrModel Qsbr.QsbrFine Lin.LinCheck Ptr.PtrShape Ptr.PtrModel Gen.GenPtrMethods.
 Extraction Language OCaml.
 Extraction "model.ml"
   enc_init enc_step enc_run decode_seq ty_of ty_width lex_compare f32 f64 enc_tuple comp_canon
@@ -10,4 +10,5 @@ Extraction "model.ml"
   linit lstep lrun lrun_diag node_accepts node_diag no_wait_while_holding olc_trace_ok
   qinit qstep op_enabled wait_of q_register q_unregister q_quiescent q_retire pending registered_count
   lin_ok op_ok scan_ok
+  finit fstep frun frun_diag fbad fpending sw_word get_fthr ev_tid
   pinit pstep pop_ok quiescent_allowed ptr_methods.
